@@ -10,6 +10,8 @@ CONSTANTS
  Foreign = TRUE
  KindOf <- AllCalls
  LoadOf <- NoLoad
+ Shutdowns = FALSE
+ CancelAware = TRUE
  ClearInputs = FALSE
 INVARIANT Inv_C03
 INVARIANT Inv_C07
